@@ -32,6 +32,8 @@ Act ==
       [] Ev.op = "RemoveBlock"    -> RemoveBlock(Ev.b, Ev.h)
       [] Ev.op = "SetType"        -> SetType(Ev.h, Ev.name)
       [] Ev.op = "SetLabels"      -> SetLabels(Ev.h, Ev.labels)
+      [] Ev.op = "Clear"          -> Clear(Ev.b)
+      [] Ev.op = "Decorate"       -> Decorate(Ev.b, Ev.name)
 
 \* the real file after the call, as logged, equals the specification's next state
 ProjOK ==
@@ -45,9 +47,7 @@ TReset == /\ l <= Len(Trace) /\ Ev.op = "reset"
           /\ init' = Ev.init
           /\ hist' = <<>>
           /\ nextId' = NInit + 1
-          /\ IF Ev.init = "parsed"
-               THEN item' = ParsedItems /\ body' = ParsedBodies
-               ELSE item' = [i \in 1..MaxId |-> NoItem] /\ body' = [b \in 0..MaxId |-> <<>>]
+          /\ item' = ItemsOf(Ev.init) /\ body' = BodiesOf(Ev.init)
           /\ l' = l + 1
 
 TraceNext == \/ TReset
